@@ -160,3 +160,16 @@ Definition nf_layout_ok : bool :=
   (if list_eq_dec N.eq_dec (map snd ipfix_header_layout) (2 :: map N.of_nat NF.ipfix_hdr_ws) then true else false) &&
   (match index_of "SourceId" v9_header_layout 0 with Some i => Nat.eqb i 5 | None => false end) &&
   (match index_of "ObservationDomainId" ipfix_header_layout 0 with Some i => Nat.eqb i 4 | None => false end).
+
+(* ---- cells whose wording the checks above do not know (a reworded table is reported as such, not as a
+   wrong mapping) ---- *)
+Definition sflow_vocab : list string :=
+  [""; "SFLOW_5"; "Included"; "Agent IP"; "=TimeReceived"; "Length of sample"; "=1";
+   "From ExtendedSwitch"; "From ExtendedRouter"; "From ExtendedGateway"].
+Definition v5_vocab : list string :=
+  [""; "NETFLOW_V5"; "IPv4"; "Included"; "IP source of packet"; "System uptime and first"; "System uptime and last"].
+Definition sflow_doc_unknown : list string :=
+  flat_map (fun r => if existsb (String.eqb (snd r)) sflow_vocab then [] else [fst r]) doc_sflow.
+Definition v5_doc_unknown : list string :=
+  flat_map (fun r => let '(name, cell, f) := r in
+                     match f with Some _ => [] | None => if existsb (String.eqb cell) v5_vocab then [] else [name] end) doc_v5.
